@@ -575,7 +575,9 @@ RST_FAMILY = ("restructuredtext", "google", "numpy")
 BASE = ["alpha", "beta", "Gamma", "delta", "foo", "bar", "baz", "Qux", "data", "value", "node", "tree", "left",
         "right", "fast", "slow", "item", "word", "text", "thing", "result", "number", "x1", "y2", "k9"]
 UNIVERSAL = ["a<b", "x>y", "&amp;", "<tag>", "#1", "50%", "a/b", "a+b", "a=b", "~x", "$v", "\u00e9t\u00e9", "na\u00efve",
-             "\u03bbx", "\u65e5\u672c", "e.g.", "&", "x.y", "f()", "don't", "a,b"]
+             "\u03bbx", "\u65e5\u672c", "e.g.", "&", "x.y", "f()", "don't", "a,b",
+             # characters str.splitlines() breaks on: white space for the word oracle (reST replaces them by a blank, ce72216)
+             "line\u2028sep", "next\x85line"]
 SPECIAL = {
     "epytext": ["*star*", "`tick`", "_under_", "a|b", "back\\slash", "x:", "a::b", "**kw", "|pipe|", "{curly}", "{}", "a{b}c"],
     "restructuredtext": ["{curly}", "@sign", "C{x}", "x*y", "a_b", "{", "}", "E{lb}", "x:", "a::b"],
@@ -1544,7 +1546,26 @@ def in_admonition(kind, words, adm) -> bool:
     return any(strip(ws) == strip(words) for t in ADMONITIONS.get(kind, []) for ws in adm.get(t, []))
 
 
+class _Relabel:
+    """google / numpy docstrings containing U+2028 / U+0085: napoleon splits its input with str.splitlines(), which cuts the field or
+    list item in two at these characters; whatever goes wrong in such a document is that one finding"""
+
+    def __init__(self, ctx):
+        self._ctx = ctx
+
+    def __getattr__(self, name):
+        return getattr(self._ctx, name)
+
+    def fail(self, signature, input, what):
+        if signature.startswith("html2stan:nbsp-entity"):
+            return self._ctx.fail(signature, input, what)
+        return self._ctx.fail("napoleon:unicode-line-boundary-cuts-docstring-structure", input,
+                              "google/numpy docstring containing U+2028 or U+0085 (line ends for str.splitlines(), not for Python): " + what)
+
+
 def oracle_document(ctx: Ctx, fmt: str, doc, ser, full: str, src: str, r) -> None:
+    if fmt in ("google", "numpy") and re.search("[\u2028\x85]", ser["docstring"]):
+        ctx = _Relabel(ctx)
     inp = {"docformat": fmt, "owner": full, "source": src}
     out: Out = ser["out"]
     root = dom(r["html"])
